@@ -299,6 +299,10 @@ fractional, integral, signed, overflowing numbers, malformed and duplicate entri
         let canonical = !String::from_utf8_lossy(&listing).contains("/./");
         parse_case(w, &listing, if wellformed && canonical { Some(&expect) } else { None }, if wellformed { "wellformed+skips" } else { "malformed-numbers" });
     }
+    // ---- the real listing command: `find . -type f -printf <format taken from meta.rs>` on real trees.
+    // Each record the real `find` writes must be the model's rendering of that file (query `render`), and the
+    // real parser must give back exactly the (path, size, whole seconds) the files have.
+    find_section(w, thorough, &mut rng);
     // raw random bytes incl. invalid UTF-8 are run on the implementation only for totality (no model line)
     let mut tot = 0u64;
     for _ in 0..(if thorough { 50_000 } else { 5_000 }) {
@@ -311,4 +315,80 @@ fractional, integral, signed, overflowing numbers, malformed and duplicate entri
         tot += 1;
     }
     w.count_n("parse/random-bytes-totality-only", tot);
+}
+
+
+/// the `-printf` format string as written in meta.rs of the tree under test (Rust escapes undone)
+fn source_printf_format() -> Option<String> {
+    let src = include_str!("../../.build/repo/src/bin/copia/meta.rs");
+    let i = src.find("-printf '")? + "-printf '".len();
+    let j = src[i..].find('\'')? + i;
+    Some(src[i..j].replace("\\\\", "\\"))
+}
+
+fn find_section(w: &mut Out, thorough: bool, rng: &mut crate::util::Rng) {
+    use std::time::{Duration, UNIX_EPOCH};
+    let Some(fmt) = source_printf_format() else {
+        let line = w.case("nt 0:0 -", "true", false);
+        w.fail(line, "find-format-not-found", "no `-printf '<fmt>'` in meta.rs");
+        return;
+    };
+    let names = ["a", "a b", "tab\there", "new\nline", "dot.dot", "..dots", "é", "-x", "a\t\tb", "x.12", "a*", "?", "d/e", "d/f\tg", "q/r/s.t"];
+    let base = PathBuf::from(format!("/var/tmp/copia-corr-find-{}", std::process::id()));
+    for round in 0..(if thorough { 60 } else { 12 }) {
+        let _ = std::fs::remove_dir_all(&base);
+        std::fs::create_dir_all(&base).expect("mkdir");
+        let mut expect = MetaMap::new();
+        let mut records: Vec<Vec<u8>> = Vec::new();
+        let n = rng.range(1, 7);
+        for _ in 0..n {
+            let name = *rng.pick(&names);
+            if expect.contains_key(&PathBuf::from(name)) {
+                continue;
+            }
+            let path = base.join(name);
+            if let Some(p) = path.parent() {
+                std::fs::create_dir_all(p).expect("mkdir");
+            }
+            let size = match rng.below(4) { 0 => 0, 1 => 1, _ => rng.below(5000) };
+            std::fs::write(&path, vec![b'x'; size as usize]).expect("write");
+            let nsec: u32 = match rng.below(4) { 0 => 0, 1 => 500_000_000, 2 => 999_999_999, _ => rng.below(1_000_000_000) as u32 };
+            let (secs, t) = match rng.below(6) {
+                0 => (0i64, UNIX_EPOCH + Duration::new(0, nsec)),
+                1 => { let k = rng.range(1, 1000); (-(k as i64), UNIX_EPOCH - Duration::new(k, 0) + Duration::new(0, nsec)) }
+                2 => (4_102_444_800, UNIX_EPOCH + Duration::new(4_102_444_800, nsec)),
+                _ => { let k = rng.below(2_000_000_000); (k as i64, UNIX_EPOCH + Duration::new(k, nsec)) }
+            };
+            std::fs::File::options().write(true).open(&path).expect("open").set_modified(t).expect("set mtime");
+            expect.insert(PathBuf::from(name), FileMeta { size, mtime: secs });
+            // what the model says `find` prints for this file
+            let q = format!("render {} {size} {secs} {:09}0", hex(name.as_bytes()), nsec);
+            records.push(q.into_bytes());
+        }
+        let out = std::process::Command::new("find").arg(".").arg("-type").arg("f").arg("-printf").arg(&fmt)
+            .current_dir(&base).output().expect("run find");
+        let mut real: Vec<&[u8]> = out.stdout.split(|&b| b == 0).filter(|r| !r.is_empty()).collect();
+        real.sort();
+        // 1. each model-rendered record is one of find's records (the driver answers with the record's hex, NUL included)
+        let mut real_hex: Vec<String> = real.iter().map(|r| { let mut v = r.to_vec(); v.push(0); hex(&v) }).collect();
+        real_hex.sort();
+        for q in &records {
+            let q = String::from_utf8_lossy(q).to_string();
+            // the implementation side of this line is: the record of the real output for that path
+            let name_hex = q.split(' ').nth(1).unwrap_or("").to_string();
+            let want = real.iter().find(|r| {
+                let s = r.splitn(3, |&b| b == b'\t').nth(2).unwrap_or(&[]);
+                hex(s.strip_prefix(b"./").unwrap_or(s)) == name_hex
+            }).map(|r| { let mut v = r.to_vec(); v.push(0); hex(&v) }).unwrap_or_else(|| "MISSING".into());
+            w.case(&q, &want, true);
+            w.count("find/record-vs-model-render");
+        }
+        // 2. the real parser on the real listing gives back the files
+        parse_case(w, &out.stdout, Some(&expect), "real-find-listing");
+        if real.len() != expect.len() {
+            let line = w.case("nt 0:0 -", "true", false);
+            w.fail(line, "find-record-count", &format!("round {round}: find printed {} records for {} files", real.len(), expect.len()));
+        }
+    }
+    let _ = std::fs::remove_dir_all(&base);
 }
